@@ -205,6 +205,72 @@ class Monitor:
         return list(self._tt.first)
 
 
+class MultiMonitor:
+    """One Monitor per partition of a `ParallelSimulation` (its `.simulations` dict, in declaration order), presented
+    with the attributes of a single Monitor: counters are summed, the delivery sequence is the concatenation of the
+    partitions' sequences in declaration order (target names prefixed with the partition name — the order *within* a
+    partition is the observable; partitions run in threads), per-clock delivery counts are merged by clock value."""
+
+    def __init__(self, psim, cap=20000, total_cap=400_000, keep_pushes=True, keep_deliveries=True):
+        self.sim = psim
+        self.cap = cap
+        self.names = list(psim.simulations)
+        self.parts = [Monitor(s, cap=cap, total_cap=total_cap, keep_pushes=keep_pushes, keep_deliveries=keep_deliveries)
+                      for s in psim.simulations.values()]
+        self._tt = _TimeTravelCounter()
+        self._logger = logging.getLogger("happysimulator.core.simulation")
+
+    def attach(self):
+        for m in self.parts:
+            m.attach()
+            m._logger.removeHandler(m._tt)       # one shared counter instead of one per partition
+        self._logger.addHandler(self._tt)
+        return self
+
+    def detach(self):
+        for m in self.parts:
+            m.detach()
+        self._logger.removeHandler(self._tt)
+
+    def _sum(self, attr):
+        return sum(getattr(m, attr) for m in self.parts)
+
+    n_pushes = property(lambda self: self._sum("n_pushes"))
+    n_past = property(lambda self: self._sum("n_past"))
+    n_deliveries = property(lambda self: self._sum("n_deliveries"))
+    n_cancelled = property(lambda self: self._sum("n_cancelled"))
+    n_stale_pops = property(lambda self: self._sum("n_stale_pops"))
+    spin = property(lambda self: max(m.spin for m in self.parts))
+    runaway = property(lambda self: max(m.runaway for m in self.parts))
+    max_per_instant = property(lambda self: max(m.max_per_instant for m in self.parts))
+    timetravel = property(lambda self: self._tt.count)
+    timetravel_types = property(lambda self: list(self._tt.first))
+
+    @property
+    def spin_at(self):
+        return next((m.spin_at for m in self.parts if m.spin_at), None)
+
+    @property
+    def past(self):
+        return [x for m in self.parts for x in m.past][:5]
+
+    @property
+    def pushes(self):
+        return [x for m in self.parts for x in m.pushes]
+
+    @property
+    def deliveries(self):
+        return [(t, typ, f"{name}/{tgt}") for name, m in zip(self.names, self.parts) for (t, typ, tgt) in m.deliveries]
+
+    @property
+    def per_clock(self):
+        merged = {}
+        for m in self.parts:
+            for c, n in m.per_clock:
+                merged[c] = merged.get(c, 0) + n
+        return sorted(merged.items())
+
+
 class RunResult:
     """what one monitored run produced"""
 
@@ -241,8 +307,9 @@ def run_scenario(fam_name, cfg, seed, cap=20000, total_cap=400_000, before_run=N
         return res
     if before_run is not None:
         before_run(sim)
-    mon = Monitor(sim, cap=cap, total_cap=total_cap, keep_pushes=keep_pushes,
-                  keep_deliveries=keep_deliveries).attach()
+    multi = isinstance(getattr(sim, "simulations", None), dict)       # a ParallelSimulation: one monitor per partition
+    mon = (MultiMonitor if multi else Monitor)(sim, cap=cap, total_cap=total_cap, keep_pushes=keep_pushes,
+                                               keep_deliveries=keep_deliveries).attach()
     res.mon = mon
     try:
         sim.run()
